@@ -148,6 +148,9 @@ func runWorker(bin string, job *sim.Job, race bool, watchdogS int) *workerResult
 	if race {
 		extra = append(extra, "GORACE=halt_on_error=1 exitcode=66")
 	}
+	if scn := sim.Scenarios[job.Prop]; scn != nil && scn.Instrument {
+		extra = append(extra, "VERIF_INSTRUMENTED=1")
+	}
 	if watchdogS > 0 {
 		extra = append(extra, "VERIF_WATCHDOG_S="+strconv.Itoa(watchdogS))
 	}
